@@ -351,6 +351,10 @@ func (s *server) wsHandler(w http.ResponseWriter, r *http.Request) {
 	negotiatedSubProtocol := ""
 out:
 	for _, requestedProto := range clientSubProtocols {
+		if requestedProto == "" {
+			// Empty list elements in the header are not sub-protocols
+			continue
+		}
 		if len(s.upgrader.Subprotocols) == 0 {
 			// All subProtocols are accepted, pick first
 			negotiatedSubProtocol = requestedProto
